@@ -4,12 +4,17 @@ Input : {"scenarios": [scenario...]}
            | {"id": n, "kind": "threads", "threads": [[step...], ...], "sync": [[ta, k, tb], ...]}
            | {"id": n, "kind": "gc", "n": builds, "prog": program}
   step = {"k": "build", "prog": P, "key": str} | {"k": "probe"} | {"k": "junk", "n": int} | {"k": "desc", "prog": P}
+       | {"k": "use", "prog": P, "key": str, "how": add|store|new_from|read_stream|descread|libread,
+          "variant": valid|trunc|badclass|badrate|dupname, "cut": permille}   build P, then use the OTHER entry points
+         that take the build lock and install a (dummy) current definition: the read-back of add/store/new_from, or the
+         reader on the (possibly truncated / damaged) bytes in memory or in a file
   sync [ta, k, tb]: when thread ta reaches instruction k of its FIRST build it releases thread tb and waits until tb
   has announced its first attempt (plus a grace period so that tb really is blocked on the build lock).
 Output: {"traces": [{"id", "kind", "ev": [event...]}]}; every event has all fields (uniform records for TLC):
-  e attempt|enter|mid|leave|exit|probe|gc   t thread   b build number   f program key
+  e attempt|enter|mid|leave|exit|read|probe|gc   t thread   b build number   f program key
   mine/locked (inside the function: the global context is this definition / the build lock is held)
-  raised, err, sha, lost (units of this function attached elsewhere)   ctx_none, lock_free, orphan (probe)
+  raised, err, sha, lost (units of this function attached elsewhere)   ctx_none, lock_free, orphan, wrap (probe:
+  SynthDef.wrap worked outside a build)   read: f = how:variant, raised, err
 No verdicts here: TraceBuild.tla decides."""
 import gc
 import json
@@ -26,7 +31,7 @@ TIMEOUT = 60
 
 def ev(**kw):
     d = dict(e='', t=0, b=0, f='', mine=0, locked=0, raised=0, err='', sha='', lost=0, ctx_none=0, lock_free=0,
-             orphan=0, n=0)
+             orphan=0, n=0, wrap=0)
     d.update(kw)
     return d
 
@@ -39,12 +44,14 @@ class Runner:
         self.mutex = threading.Lock()
         self.nb = 0
         self.threaded = False
+        self._tmp = None
+        self.nfile = 0
 
     def emit(self, **kw):
         with self.mutex:
             self.log.append(ev(**kw))
 
-    def build(self, t, prog, key, sync_at=None, on_sync=None):
+    def build(self, t, prog, key, sync_at=None, on_sync=None, post=None):
         with self.mutex:
             self.nb += 1
             bno = self.nb
@@ -67,14 +74,68 @@ class Runner:
             if idx == n:
                 self.emit(e='leave', t=t, b=bno, f=key, **state())
 
-        rec = self.b.build(prog, hook=hook)
+        rec = self.b.build(prog, hook=hook, post=post)
         self.emit(e='exit', t=t, b=bno, f=key, raised=rec['raised'], err=rec['err'] + ('@' + rec['stage'] if rec['stage'] else ''),
                   sha=rec['sha'], lost=rec.get('lost', 0))
         return rec
 
     def probe(self, t):
         p = self.b.probe_idle()
-        self.emit(e='probe', t=t, ctx_none=p['ctx_none'], lock_free=p['lock_free'], orphan=p['orphan_owned'])
+        self.emit(e='probe', t=t, ctx_none=p['ctx_none'], lock_free=p['lock_free'], orphan=p['orphan_owned'],
+                  wrap=p['wrap'])
+
+    # ---- the other users of the build lock / global context
+    def mutate(self, data, s):
+        var = s.get('variant', 'valid')
+        mark = b'\x06SinOsc'
+        at = data.find(mark)
+        if var == 'trunc' or (var in ('badclass', 'badrate') and at < 0):
+            return data[:len(data) * s.get('cut', 500) // 1000]
+        if var == 'badclass':
+            return data[:at] + b'\x06SinOsx' + data[at + 7:]
+        if var == 'badrate':
+            return data[:at + 7] + b'\x07' + data[at + 8:]
+        if var == 'dupname':
+            return data.replace(b'\x02kb', b'\x02ka', 1)
+        return data
+
+    def use(self, t, s):
+        import io
+        import pathlib
+        how = s['how']
+        sdc = self.b.sdc
+
+        def post(sd, data):
+            b = self.mutate(data, s)
+            try:
+                if how == 'add':
+                    sd.add()
+                elif how == 'store':
+                    sd.store(dir=self.tmpdir())
+                elif how == 'new_from':
+                    sdc.SynthDesc.new_from(sd)
+                elif how == 'read_stream':
+                    sdc.SynthDesc._read_stream(io.BytesIO(b))
+                else:
+                    self.nfile += 1
+                    path = pathlib.Path(self.tmpdir()) / ('f%d.scsyndef' % self.nfile)
+                    path.write_bytes(b)
+                    if how == 'descread':
+                        sdc.SynthDesc.read(path)
+                    else:
+                        sdc.SynthDescLib.get_lib('default').read(path)
+                return dict(raised=0, err='')
+            except Exception as e:        # recorded; what must hold afterwards is the spec's business
+                return dict(raised=1, err=type(e).__name__)
+        rec = self.build(t, s['prog'], s['key'], post=post)
+        out = rec.get('post') or dict(raised=2, err='not-built')
+        self.emit(e='read', t=t, f=how + ':' + s.get('variant', 'valid'), raised=out['raised'], err=out['err'])
+
+    def tmpdir(self):
+        import tempfile
+        if self._tmp is None:
+            self._tmp = tempfile.mkdtemp(prefix='c20_', dir='.')
+        return self._tmp
 
     def steps(self, t, steps, sync_at=None, on_sync=None, started=None):
         first = True
@@ -84,6 +145,8 @@ class Runner:
                     pass
                 self.build(t, s['prog'], s['key'], sync_at if first else None, on_sync if first else None)
                 first = False
+            elif s['k'] == 'use':
+                self.use(t, s)
             elif s['k'] == 'probe':
                 # a probe takes the lock for an instant and creates a unit: only meaningful (and only harmless)
                 # while no other thread can be building, so threaded scenarios probe once, after the join
@@ -210,6 +273,9 @@ def main():
             done = int(lines[-1]) if lines else 0
             r.emit(e='gc', n=sc['n'], b=done, raised=0 if p.returncode == 0 else 1,
                    err=('rc=%d ' % p.returncode) + p.stderr.strip().splitlines()[-1][:120] if p.returncode else '')
+        if r._tmp is not None:
+            import shutil
+            shutil.rmtree(r._tmp, ignore_errors=True)
         out.append(dict(id=sc['id'], kind=sc['kind'], ev=r.log))
     json.dump({'traces': out}, open(sys.argv[2], 'w'))
     sys.stdout.flush()
